@@ -183,7 +183,9 @@ type workerOut struct {
 func runWorker(tmp, bin string, job core.Job, cfg *propCfg, timeout time.Duration, extraEnv ...string) workerOut {
 	jobPath := filepath.Join(tmp, fmt.Sprintf("job-%d-%d.json", job.Worker, time.Now().UnixNano()))
 	job.Out = jobPath + ".out"
-	job.Progress = jobPath + ".progress"
+	if cfg.Race {
+		job.Progress = jobPath + ".progress"
+	}
 	jb, _ := json.Marshal(job)
 	if err := os.WriteFile(jobPath, jb, 0o644); err != nil {
 		return workerOut{err: err}
@@ -585,6 +587,16 @@ func replay(path string) int {
 	abs, _ := filepath.Abs(path)
 	if rf.Clause == "data-race" {
 		return replayRace(tmp, bin, *part, rf, abs)
+	}
+	if rf.Clause == "crash" {
+		ro := runWorker(tmp, bin, core.Job{Property: world, Tier: "quick", Mode: "replay", Replay: abs, Worker: 99}, part.asCfg(), 10*time.Minute)
+		if ro.res == nil && strings.Contains(ro.stderr, "panic: ") {
+			fmt.Printf("  clause=crash: %s\n", core.Trunc(ro.stderr[strings.Index(ro.stderr, "panic: "):], 800))
+			fmt.Printf("VIOLATION property=%s replay=%s\n", rf.Property, abs)
+			return 1
+		}
+		fmt.Printf("replay of %s: no crash on this tree\n", abs)
+		return 0
 	}
 	ro := runWorker(tmp, bin, core.Job{Property: world, Tier: "quick", Mode: "replay", Replay: abs, Worker: 99}, part.asCfg(), 10*time.Minute)
 	if ro.res == nil || ro.res.Error != "" {
